@@ -42,6 +42,33 @@ to the constructors the writer declares (CAPS):
              The oracle counts: a text that the source holds n times must occur exactly n times (fewer: lost, more: dup); when
              all counts agree the complete occurrence sequence must equal the source sequence (order) and every judged
              boundary between neighbouring occurrences must be white space (merged).
+  V-family   spelling variants (verif.props.c02_variants): other legal spellings of the SAME document - the truth of a term does not
+             change, only the markup / bytes the writer uses for one construct. Each variant is a format name of its own and runs
+             over the whole C-family of its base format (restricted to the terms that hold the construct it respells):
+               html+as:<c>, epub+as:<c>       containers of visible text that are neither <p> nor <td>: the paragraph element written as
+                                              div blockquote pre address section article center figure>figcaption dl>dt dl>dd; the paragraph
+                                              in front of a table as its <caption>; <th> cells; thead/tbody/tfoot row groups; <ol>; h4..h6
+               html+as:split:<e>, epub+..     inline markup inside a word: every text = first half + <e>second half</e>,
+                                              e in b i em strong span u font a sup sub small mark code
+               mhtml+hdr:<cte>:<s>            header spellings of the root part that RFC 2045 / 5322 declare equivalent, cte in qp b64 x
+                                              s in cte-title cte-upper cte-trail name-lower name-upper type-upper charset-bare
+                                              charset-upper fold cte-first lf
+               rtf+u:<f>:<scope>              every character of every text (scope all) / the second character of every text (scope
+                                              second) written as a \\uN escape whose fallback is spelled f in: q (?), hex (\\'xx), letter,
+                                              blank-q (delimiter blank, then ?), uc0 (no fallback), uc2 (two fallback bytes), group
+               odg+nest, odp+nest             a text box anchored as a character inside a paragraph of a drawing page (box constructor)
+                                   quick: 11 containers, 3 split elements, 6 header spellings x 2, 5 fallback spellings (scope all; hex also second)
+                                   thorough: all 15 containers, 13 elements, 11 x 2 header spellings, 7 x 2 fallback spellings, and the
+                                   thorough C-family
+             A variant is judged where the base spelling of the same term passes (a clause that fails for the base format too is the
+             base format's finding).
+  N-family   comments attached to spreadsheet cells (`ods+note`: office:annotation, `xlsx+note`: comments part): every grid of <= R rows
+             of 1..C cells, each cell empty / text / text with a comment / empty with a comment, at least one comment; the comment text
+             is hidden text (clause leak), the cell texts are judged as always.       quick: R=C=2   thorough: R=3 C=2
+  R-family   read histories: EVERY evaluation of every family asks the same result objects for their text twice -
+             get_full_text(); get_text() of every unit of iterate_units(); get_table() of every table of iterate_tables();
+             get_full_text() again - and both full texts are judged by the same oracle (a clause that fails on the first is not
+             repeated for the second).
 Terms that a writer cannot express (NotImplementedError) are skipped and counted as `inexpressible`.
 
 Oracle clauses (each is a fingerprint clause): lost, dup, order, merged, leak, invented  (see judge()).
@@ -108,6 +135,9 @@ def _txt_body(doc):
 def _render(fmt, doc):
     """ADM -> bytes (raises NotImplementedError when the writer cannot express the term)."""
     base = fmt.split("+")[0]
+    var = _variant(fmt)
+    if var:
+        return _render_variant(var, doc)
     if base in ("docx", "pptx", "xlsx"):
         from verif.gen import ooxml
         if base == "xlsx":
@@ -170,6 +200,64 @@ def _render(fmt, doc):
     raise ValueError(fmt)
 
 
+def _variant(fmt):
+    """(base format, family, arguments) of a spelling-variant format name (V-family, see c02_variants), else None"""
+    if "+" not in fmt:
+        return None
+    base, rest = fmt.split("+", 1)
+    if rest.startswith("as:"):
+        return base, "as", rest[3:]
+    if rest.startswith("hdr:"):
+        return base, "hdr", tuple(rest[4:].split(":"))
+    if rest.startswith("u:"):
+        return base, "u", tuple(rest[2:].split(":"))
+    if rest in ("note", "nest"):
+        return base, rest, None
+    return None
+
+
+def _base_of(fmt):
+    """the format whose writer spells the same document the ordinary way (None: the ordinary writer cannot express it)"""
+    var = _variant(fmt)
+    if not var or var[1] in ("note", "nest"):
+        return None
+    return var[0]
+
+
+def _render_variant(var, doc):
+    from verif.props import c02_variants as V
+    base, fam, arg = var
+    imgs = {"i1": (_png(), "png")}
+    if fam == "as":
+        from verif.gen import htmlfam
+        if base == "epub":
+            w = V.HtmlAs(arg, True, {"i1": "i1.png"})
+            return htmlfam.epub([htmlfam.xhtml_page(w.body(doc, unit=i), "t") for i in range(len(doc[2]))]
+                                or [htmlfam.xhtml_page("", "t")], {"title": "t"})
+        if base != "html":
+            raise ValueError(var)
+        return htmlfam.html_page(V.HtmlAs(arg, False, {"i1": "i1.png"}).body(doc)).encode("utf-8")
+    if fam == "hdr":
+        from verif.gen import htmlfam
+        page = htmlfam.html_page(htmlfam.html_body(doc, False, {"i1": "i1.png"}))
+        return V.mhtml_spelled(page, arg[0], arg[1])
+    if fam == "u":
+        from verif.gen import rtf
+        return V.rtf_respell(rtf.rtf(V.rtf_mark(doc, arg[1]), imgs), arg[0])
+    if fam == "note":
+        doc2, notes = V.split_cell_notes(doc)
+        if base == "ods":
+            from verif.gen import odf
+            return V.ods_with_notes(odf.ods(doc2), notes)
+        if base == "xlsx":
+            from verif.gen import ooxml
+            return V.xlsx_with_notes(ooxml.xlsx(doc2), notes)
+        raise ValueError(var)
+    if fam == "nest":
+        return V.odf_draw_nested(base, doc, imgs)
+    raise ValueError(var)
+
+
 _READERS = {
     "docx": ("ms_modern.docx_extractor", "read_docx"), "pptx": ("ms_modern.pptx_extractor", "read_pptx"),
     "xlsx": ("ms_modern.xlsx_extractor", "read_xlsx"), "odt": ("open_office.odt_extractor", "read_odt"),
@@ -189,7 +277,9 @@ class ShortFileCharset(Exception):
 
 
 def _extract(fmt, data):
-    """bytes -> (full text, table cell strings)"""
+    """bytes -> (full text, table cell strings, full text asked for again). Read history of every evaluation (R-family):
+    get_full_text(); every unit's get_text() through iterate_units(); every table through iterate_tables(); get_full_text() again -
+    on the same result objects. The second full text is (exception, None) when asking again raises."""
     base = fmt.split("+")[0]
     mod, fn = _READERS[base]
     res = list(_rd(mod, fn)(io.BytesIO(data), "a." + base))
@@ -198,7 +288,19 @@ def _extract(fmt, data):
         # documented (read_plain_text docstring): "For very short files (< 32 bytes), detection may be unreliable"
         raise ShortFileCharset()
     tabs = _tables_of(res) if base in ("odp", "epub") else []
-    return text, tabs
+    for r in res:
+        try:                      # what these calls return is the subject of C03 / C13; here they are only steps of the history
+            for u in r.iterate_units():
+                u.get_text()
+            for t in r.iterate_tables():
+                t.get_table()
+        except Exception:  # noqa
+            pass
+    try:
+        text2 = _text_of(res)
+    except Exception as e:  # noqa - a data point
+        text2 = (e, None)
+    return text, tabs, text2
 
 
 def _caps(fmt):
@@ -241,7 +343,10 @@ def _caps(fmt):
         c = set(pptbin.CAPS_PPT) - {"img"}
     else:
         raise ValueError(fmt)
-    return frozenset(c) & (SUPPORTED | {"sheet"})
+    c = frozenset(c) & (SUPPORTED | {"sheet"})
+    if fmt.endswith("+nest"):
+        c = c | {"box"}           # the variant's writer anchors text boxes inside the paragraphs of a drawing page
+    return c
 
 
 # clauses judged per format (documented-behaviour table, DESIGN section 1 / Appendix B)
@@ -260,6 +365,30 @@ ADM_FORMATS = ("docx", "docx+bsdt", "docx+pagebr", "docx+colbr", "pptx", "pptx+n
                "csv", "eml", "eml+html", "mbox", "ppt", "ppt+textbox") + RLE_DOC_FORMATS
 THOROUGH_ONLY = ("mhtml+b64", "xlsx+inline")
 FORMATS = ADM_FORMATS + tuple(f for f in SHEET_FORMATS if f != "csv") + ("csv+sheet",)
+
+
+def variant_formats(tier):
+    """V-family: the spelling variants of the tier (names: <base>+as:<container> | <base>+as:split:<element> | mhtml+hdr:<cte>:<spelling> |
+    rtf+u:<fallback spelling>:<all|second> | ods+note, xlsx+note (N-family) | odg+nest, odp+nest); see verif.props.c02_variants"""
+    from verif.props import c02_variants as V
+    q = tier == "quick"
+    out = []
+    for v in (V.HTML_BLOCK_QUICK if q else V.HTML_BLOCK):
+        out += ["html+as:" + v, "epub+as:" + v]
+    for v in (V.HTML_SPLIT_QUICK if q else V.HTML_SPLIT):
+        out += ["html+as:split:" + v, "epub+as:split:" + v]
+    for cte in V.MIME_CTE:
+        for v in (V.MIME_HDR_QUICK if q else V.MIME_HDR):
+            out.append("mhtml+hdr:%s:%s" % (cte, v))
+    for v in (V.RTF_U_QUICK if q else V.RTF_U):
+        for scope in V.RTF_U_SCOPE:
+            if q and scope == "second" and v != "hex":
+                continue          # quick: the mixed scope (plain and escaped characters in one word) for one fallback spelling only
+            out.append("rtf+u:%s:%s" % (v, scope))
+    out += ["ods+note", "xlsx+note", "odg+nest", "odp+nest"]
+    return tuple(out)
+
+
 # variants that differ from their base format only on particular terms take the M-family of the base format's other variants for granted
 NO_M_FAMILY_QUICK = ("docx+bsdt", "docx+pagebr", "docx+colbr", "pptx+nooff", "ppt+textbox")
 
@@ -678,6 +807,23 @@ def _m_grids(tier, identity_too=False):
                     yield ("MG", tuple(rows))
 
 
+N_BOUNDS = {"quick": (2, 2), "thorough": (3, 2)}
+
+
+def _n_grids(tier):
+    """N-family: every grid of <= R rows of 1..C cells, each cell empty (0), text (1), text with a comment (2) or empty with a comment
+    (3), holding at least one comment"""
+    import itertools
+    R, C = N_BOUNDS[tier]
+    rows = []
+    for w in range(1, C + 1):
+        rows += list(itertools.product((0, 1, 2, 3), repeat=w))
+    for nr in range(1, R + 1):
+        for g in itertools.product(rows, repeat=nr):
+            if any(v >= 2 for row in g for v in row):
+                yield ("NG", g)
+
+
 # ---------------------------------------------------------------------------------------------- run-length encoding (ODF)
 
 def _rle_rows(rows, t, cell_rep, row_rep):
@@ -863,6 +1009,12 @@ def build_sheets_m(rows, seed):
 def build_sheets(skel, seed):
     if skel and skel[0] == "MG":
         return build_sheets_m(skel[1], seed)
+    if skel and skel[0] == "NG":
+        tk = Tokens(seed)
+        name = tk.new("N")
+        mk = {0: lambda: None, 1: lambda: ["s", tk.new("C")], 2: lambda: ["s", tk.new("C"), {"note": tk.new("M")}],
+              3: lambda: ["n", tk.new("M")]}
+        return ["doc", {}, [["sheet", name, [[mk[v]() for v in row] for row in skel[1]]]]]
     tk = Tokens(seed)
     sheets = []
     for g in skel:
@@ -883,6 +1035,22 @@ def _has_inline(x, kind):
 
 def skeletons(fmt, tier, k=0, n=1):
     """The skeletons of partition k of n of the format's space, without duplicates. ('adm'|'sheet', skeleton)"""
+    var = _variant(fmt)
+    if var and var[1] == "note":
+        for i, g in enumerate(_n_grids(tier)):
+            if i % n == k:
+                yield ("sheet", g)
+        return
+    if var:
+        # V-family: the spelling variant over the C-family of its base format (every constructor in every 1-block context)
+        cset, i = set(), 0
+        for sk in _c_family(fmt, tier):
+            if sk not in cset:
+                cset.add(sk)
+                if i % n == k:
+                    yield ("adm", sk)
+                i += 1
+        return
     if fmt in ("xlsx", "xlsx+inline", "ods", "ods+rle", "xls", "csv+sheet"):
         seen = set()
         i = 0
@@ -933,7 +1101,14 @@ def skeletons(fmt, tier, k=0, n=1):
             yield ("adm", sk)
 
 
+def _has_ctor(x, kind):
+    if isinstance(x, list):
+        return (bool(x) and x[0] == kind) or any(_has_ctor(y, kind) for y in x)
+    return False
+
+
 def cases_for(fmt, tier, seed, k=0, n=1):
+    var = _variant(fmt)
     for kind, sk in skeletons(fmt, tier, k, n):
         doc = build_sheets(sk, seed) if kind == "sheet" else build_doc(sk, seed)
         if fmt.endswith("+rle") and not _rle_changes(doc):
@@ -946,6 +1121,14 @@ def cases_for(fmt, tier, seed, k=0, n=1):
             continue          # shapes without a position: only text boxes share one default sort key, so source order must survive
         if fmt == "ppt+textbox" and not any(b[0] == "p" for u in doc[2] for b in u[1]):
             continue          # the variant differs from ppt only where there is a paragraph
+        if var and var[1] == "as":
+            from verif.props import c02_variants as V
+            if not V.html_variant_applies(var[2], doc):
+                continue      # a spelling variant is run on the terms that hold the construct it spells differently
+        if var and var[1] == "u" and not any(_has_ctor(doc[2], c) for c in ("t", "ins", "del")):
+            continue
+        if var and var[1] == "nest" and not _has_ctor(doc[2], "box"):
+            continue
         yield doc
 
 
@@ -954,18 +1137,23 @@ def cases_for(fmt, tier, seed, k=0, n=1):
 def sheet_truth(doc, fmt):
     """string cells are the visible text (row-major); first token of a sheet: unit boundary, first of a later row: row, else cell.
     Sheet names are documented decoration (class N): neither required nor forbidden."""
-    vis, dc = [], []
+    vis, dc, hid = [], [], []
     for sh in doc[2]:
         dc.append(sh[1])
         first_in_sheet = True
         for row in sh[2]:
             first_in_row = True
             for cell in row:
+                if cell is not None and cell[0] == "n":
+                    hid.append(cell[1])                  # an empty cell that carries a comment
+                    continue
+                if cell is not None and len(cell) > 2 and (cell[2] or {}).get("note"):
+                    hid.append(cell[2]["note"])          # a cell comment is a comment: documented as excluded from the full text
                 if cell is not None and cell[0] == "s":
                     vis.append((cell[1], "unit" if first_in_sheet else ("row" if first_in_row else "cell")))
                     first_in_sheet = False
                     first_in_row = False
-    return {"visible": vis, "hidden": [], "dontcare": dc, "tabletoks": set()}
+    return {"visible": vis, "hidden": hid, "dontcare": dc, "tabletoks": set()}
 
 
 def _visible(doc):
@@ -1303,14 +1491,33 @@ def _abstractor(doc):
 
 
 def evaluate(fmt, doc):
-    """-> (fails, outcome) ; outcome None = the writer cannot express the term"""
+    """-> (fails, outcome) ; outcome None = the writer cannot express the term.
+    A spelling variant (V-family) is judged where the ordinary spelling of the same document passes: clauses that fail for the base
+    format as well are the base format's findings and are reported there, once."""
+    fails, oc = _evaluate1(fmt, doc)
+    base = _base_of(fmt) if fails else None
+    if base:
+        sig = _LAST["sig"]
+        bfails, boc = _evaluate1(base, doc)
+        _LAST["sig"] = sig
+        shared = set(c for c, _ in bfails)
+        if boc is not None and shared:
+            fails = [(c, m) for c, m in fails if c not in shared]
+            oc = ",".join(c for c, _ in fails) or "ok(base-format-finding)"
+    return fails, oc
+
+
+REREAD = "2nd get_full_text() (after iterate_units(), iterate_tables()): "
+
+
+def _evaluate1(fmt, doc):
     try:
         data = _render(fmt, doc)
     except NotImplementedError:
         return [], None
     tr = truth_for(fmt, doc)
     try:
-        text, tabs = _extract(fmt, data)
+        text, tabs, text2 = _extract(fmt, data)
     except ShortFileCharset:
         return [], "short-file-charset-guess(not judged)"
     except Exception as e:  # noqa - a library exception is a data point
@@ -1318,7 +1525,19 @@ def evaluate(fmt, doc):
             return [("lost", "extractor raised %s: %s - all visible text lost" % (type(e).__name__, str(e)[:200]))], "raises"
         return [], "raises-empty"
     _LAST["sig"] = _signature(text, tabs)
-    return judge(fmt, doc, text, tabs, tr)
+    fails, oc = judge(fmt, doc, text, tabs, tr)
+    if text2 != text:
+        # the same oracle on the text of the second request; clauses that already fail on the first are not repeated
+        have = set(c for c, _ in fails)
+        if isinstance(text2, tuple):
+            if tr["visible"] and "lost" in _clauses(fmt) and "lost" not in have:
+                fails.append(("lost", REREAD + "raised %s: %s" % (type(text2[0]).__name__, str(text2[0])[:160])))
+        else:
+            for c, m in judge(fmt, doc, text2, tabs, tr)[0]:
+                if c not in have:
+                    fails.append((c, REREAD + m))
+        oc = ",".join(c for c, _ in fails) or "ok"
+    return fails, oc
 
 
 _LAST = {"sig": None}
@@ -1406,6 +1625,9 @@ def _shrinks_structural(doc):
                     yield ["doc", meta, units[:i] + [["sheet", sh[1], grid[:r] + [row[:c] + row[c + 1:]] + grid[r + 1:]]] + units[i + 1:]]
                     if row[c] is not None:
                         yield ["doc", meta, units[:i] + [["sheet", sh[1], grid[:r] + [row[:c] + [None] + row[c + 1:]] + grid[r + 1:]]] + units[i + 1:]]
+                    if row[c] is not None and len(row[c]) > 2:
+                        yield ["doc", meta, units[:i] + [["sheet", sh[1], grid[:r] + [row[:c] + [row[c][:2]] + row[c + 1:]] + grid[r + 1:]]] + units[i + 1:]]
+                        yield ["doc", meta, units[:i] + [["sheet", sh[1], grid[:r] + [row[:c] + [["n", row[c][2]["note"]]] + row[c + 1:]] + grid[r + 1:]]] + units[i + 1:]]
         return
     for k in sorted(meta):
         m = dict(meta)
@@ -1605,6 +1827,8 @@ def _partitions(fmt, tier):
            "xlsx": 32, "xlsx+inline": 32, "xls": 32, "ods": 32, "ods+rle": 32, "csv+sheet": 16}
     mid = ("html", "mhtml", "mhtml+b64", "md", "txt", "eml", "eml+html", "mbox", "ppt", "ppt+textbox", "pdf")
     n = big.get(fmt, 16 if fmt in mid else 2)
+    if _variant(fmt):
+        n = 2 if tier == "quick" else 8
     if tier == "quick":
         n = max(2, n // 8)
     return n
@@ -1612,7 +1836,7 @@ def _partitions(fmt, tier):
 
 def run(ctx):
     args = []
-    for fmt in FORMATS:
+    for fmt in FORMATS + variant_formats(ctx.tier):
         if ctx.quick and fmt in THOROUGH_ONLY:
             continue
         n = _partitions(fmt, ctx.tier)
@@ -1648,20 +1872,37 @@ def run(ctx):
         if s["fmt"] not in [p["fmt"] for p in picked]:
             picked.append(s)
     b = BOUNDS[ctx.tier]
+    fam = {"V (spelling variants)": sum(v["evaluated"] for f_, v in per_fmt.items() if _variant(f_) and _variant(f_)[1] != "note"),
+           "N (cell comments)": sum(v["evaluated"] for f_, v in per_fmt.items() if _variant(f_) and _variant(f_)[1] == "note"),
+           "S C E M G (base formats and writer variants)": sum(v["evaluated"] for f_, v in per_fmt.items() if not _variant(f_)),
+           "R (second full text judged)": ev}
     for f_, v in sigs.items():
         per_fmt[f_]["distinct_output_layouts"] = len(v)
     cov = {"evaluations": ev, "distinct_nontrivial": sum(len(v) for v in sigs.values()), "outcome_classes": len(outcomes), "exhaustive": True, "inexpressible_terms_skipped": skipped,
-           "rule": "every ADM term of the S-, C-, E-, M- (documents) and G-, M- (spreadsheets) families within the tier bounds (M = every assignment "
+           "rule": "every ADM term of the S-, C-, E-, M- (documents) and G-, M-, N- (spreadsheets; N = cell comments) families within the tier bounds (M = every assignment "
                    "of texts to the leaves of a small document / grid in which a text occurs several times, also run-length encoded for ODF), restricted to each "
-                   "writer's CAPS, rendered by the reference writer and extracted by the real extractor; evaluations = (format, term) pairs "
+                   "writer's CAPS, rendered by the reference writer - and, for the C-family, by every spelling variant of the V-family (HTML / EPUB containers and "
+                   "inline markup inside words, MIME header spellings of MHTML parts, RTF \\uN fallback spellings, text boxes nested in ODF drawing paragraphs) - "
+                   "and extracted by the real extractor; every extraction is read twice (full text, units, tables, full text again) and both full texts are judged; evaluations = (format, term) pairs "
                    "extracted and judged on all applicable clauses; distinct_nontrivial = distinct (format, output layout) pairs observed, a layout "
                    "being the extracted text with tokens abstracted to T and every white-space run to its strongest character; outcome_classes = "
                    "distinct (format, set of failed clauses)",
-           "bounds": dict(b, S_bonus=S_BONUS, M_family=M_BOUNDS[ctx.tier]), "per_format": per_fmt, "outcomes": dict(sorted(outcomes.items())), "samples": picked[:6]}
+           "bounds": dict(b, S_bonus=S_BONUS, M_family=M_BOUNDS[ctx.tier], N_family=dict(zip(("R", "C"), N_BOUNDS[ctx.tier])),
+                          V_family=list(variant_formats(ctx.tier)), V_family_terms="C-family of the base format",
+                          R_family="get_full_text, iterate_units/get_text, iterate_tables/get_table, get_full_text - on every evaluation"),
+           "families": fam, "per_format": per_fmt, "outcomes": dict(sorted(outcomes.items())), "samples": picked[:6]}
     return {"coverage": cov, "failures": fails, "harness_errors": herr, "assumptions": ASSUMPTIONS}
 
 
 ASSUMPTIONS = [
+    "a second get_full_text() on the same result (after iterate_units() / iterate_tables()) is judged like the first: the statement speaks "
+    "of get_full_text(), not of its first evaluation",
+    "spelling variants are equivalent sources: MIME tokens, parameter names and header field names are case-insensitive and headers may be "
+    "folded / reordered (RFC 2045 5.1, 6.1; RFC 5322 2.2); a \\uN escape is followed by \\ucN fallback characters (default 1), each a plain "
+    "character or a \\'xx byte, and a blank after the number is the delimiter of the control word (RTF 1.9.1, Unicode RTF); phrasing elements "
+    "(b, i, span, a ...) do not separate words; caption, th, figcaption, dt, dd, blockquote, pre, div ... hold visible body text",
+    "a spelling variant is judged only on clauses that hold for the base spelling of the same term (shared failures belong to the base format)",
+    "the text of a spreadsheet cell comment is a comment (hidden class): it must not appear in get_full_text()",
     "a cell / row carrying table:number-columns-repeated / table:number-rows-repeated stands for that many identical adjacent cells / rows "
     "(ODF 1.2 part 1, definitions of these attributes): its text is in the source that many times",
     "footnote bodies, hyperlink targets and sheet names are class Z / decoration: neither required nor forbidden, removed before `invented`",
